@@ -297,4 +297,19 @@ def result_is_used(b, local):
             how.append("yield")
     if not how:
         return False, "result is never inspected (dropped or ignored)"
+    if set(how) == {"match"}:
+        # a hand-written match must take the cancellation payload out of the Err arm
+        ty = b.local_ty(local)
+        want_variant = "Cancelled" if ("PropagationError" in ty or "UnsolvableOrCancelled" in ty) else "Err"
+        taken = False
+        from facts import iter_places_read
+        for bb, j, p, kind in iter_places_read(b):
+            if p["l"] != local or kind in ("discr",):
+                continue
+            names = [e.get("as") for e in p.get("p", []) if isinstance(e, dict) and "as" in e]
+            if want_variant in names and any(isinstance(e, dict) and "f" in e for e in p.get("p", [])):
+                if want_variant == "Cancelled" or names == ["Err"]:
+                    taken = True
+        if not taken:
+            return False, "result is matched but the %s payload is never taken out: cancellation is swallowed" % want_variant
     return True, ",".join(sorted(set(how)))
